@@ -128,6 +128,7 @@ def _one(args):
             return (m["name"], "stale", "patch file missing")
     else:
         edits = m.get("edits") or [m]
+    edits = list(edits) + list(m.get("also") or [])      # `also`: further {file, old, new} edits applied on top of a patch
     for e in edits:
         path = os.path.join(root, e["file"])
         try:
